@@ -364,6 +364,29 @@ Proof.
   cbn [fst snd]. split; [reflexivity|]. destruct l; cbn [model_aparams p_norm]; rewrite !(norm_raw q _ d _ Hq); now apply ws_variant_norm.
 Qed.
 
+(* hence the whole DRY report of a project is unchanged by such edits of any of its files: equal rows, equal report *)
+Lemma rows_from_same PA W : forall files files' i,
+  Forall2 (fun f f' => DryPipe.f_lang f = DryPipe.f_lang f' /\
+                       forall j, file_rows (PA (DryPipe.f_lang f)) W j (DryPipe.f_lines f) = file_rows (PA (DryPipe.f_lang f')) W j (DryPipe.f_lines f')) files files' ->
+  rows_from PA W i files = rows_from PA W i files'.
+Proof.
+  intros files files' i H. revert i. induction H as [|f f' r r' [_ Hf] _ IH]; intro i; [reflexivity|].
+  cbn [rows_from]. now rewrite Hf, IH.
+Qed.
+
+Definition raw_file (l : dlang) (docs : list bool) (ls : list string) : afile :=
+  {| DryPipe.f_lang := l; DryPipe.f_lines := map (fun p => raw_aline (fst p) (snd p)) (combine docs ls) |}.
+
+Theorem dry_report_ws_variant q W k files files' : q_strip_in_code q = true ->
+  Forall2 (fun f f' => exists l docs ls ls', f = raw_file l docs ls /\ f' = raw_file l docs ls' /\
+                       Forall2 ws_variant ls ls' /\ List.length docs = List.length ls) files files' ->
+  dry_model q W k files = dry_model q W k files'.
+Proof.
+  intros Hq H. unfold dry_model, pipeline, all_rows. f_equal. apply rows_from_same.
+  induction H as [|f f' r r' (l & docs & ls & ls' & -> & -> & Hv & Hl) _ IH]; constructor; [|exact IH].
+  split; [reflexivity|]. intro j. cbn [raw_file DryPipe.f_lang DryPipe.f_lines]. now apply dry_rows_ws_variant.
+Qed.
+
 (* ------------------------------------------------------------------ 3. what is not invariant *)
 (* the reported size of a block is its raw span: a blank line inside a 3-line duplicate makes it "4 lines" *)
 Theorem dry_span_count_refuted : exists s e k, s <= k /\ k < e /\
